@@ -232,15 +232,17 @@ def ddmin(ops, test, maxtests=400):
     return ops, tests[0]
 
 
-def shrink(z, harness_mod, res, tier, cpu_s, wall_s):
-    """Minimise res (a violating result with ops/config) using zygote z."""
+def shrink(z, harness_mod, res, tier, cpu_s, wall_s, known=None):
+    """Minimise res (a violating result with ops/config) using zygote z.
+    known: the in-run known-findings list the original run was given (a run
+    continues past those; replays must do the same to reach the violation)."""
     base = res['violation']
     config = res['config']
     seed = res['seed']
 
     def runops(ops, cfg=None):
         job = {'harness': res['harness'], 'seed': seed, 'tier': tier,
-               'cpu_s': cpu_s, 'wall_s': wall_s,
+               'cpu_s': cpu_s, 'wall_s': wall_s, 'known': known or [],
                'replay': {'config': cfg or config, 'ops': ops}}
         return z.run(job)
 
